@@ -309,6 +309,7 @@ def Layer.show (l : Layer) : String :=
   | 'A' => s!"A.{l.a}.{l.b}.{l.pv}"
   | 'F' => s!"F.{l.a}.{l.b}.{l.pv}"
   | 'P' => s!"P.{l.a}.{l.b}.{l.c}.{l.pv}"
+  | 'D' => s!"D.{l.pv}"
   | _ => s!"U.{l.pv}"
 
 def Layer.parse (s : String) : Option Layer :=
@@ -318,6 +319,7 @@ def Layer.parse (s : String) : Option Layer :=
   | [_, a, b, pv], some "F" => some ⟨'F', a, b, 0, pv⟩
   | [_, a, b, c, pv], some "P" => some ⟨'P', a, b, c, pv⟩
   | [_, pv], some "U" => some ⟨'U', 0, 0, 0, pv⟩
+  | [_, pv], some "D" => some ⟨'D', 0, 0, 0, pv⟩
   | _, _ => none
 
 def showChain (c : List Layer) : String := if c.isEmpty then "-" else "+".intercalate (c.map Layer.show)
@@ -327,6 +329,7 @@ def parseChain (s : String) : Option (List Layer) :=
 def Layer.name (l : Layer) : Obj :=
   match l.kind with
   | 'H' => name! "ASCIIHexDecode" | 'A' => name! "ASCII85Decode" | 'F' => name! "FlateDecode" | 'P' => name! "FlateDecode"
+  | 'D' => name! "DCTDecode"
   | _ => name! "LZWDecode"
 
 /-- the predictor parameters of a P layer on an input of `len` bytes (none on empty input: a PNG
@@ -505,6 +508,7 @@ def corrupt (l : Layer) (op arg : Nat) (x : Bytes) : Bytes :=
   | 'F', 4 => match x with | a :: b :: c :: d :: t => a :: b :: c :: (d ^^^ 0x01) :: t | _ => x   -- stored LEN ≠ ~NLEN / Huffman garbage
   | 'F', 5 => match x with | _ :: b :: t => 0x79 :: b :: t | _ => x              -- compression method ≠ 8 (and check)
   | 'F', 6 => [UInt8.ofNat (arg / 256), UInt8.ofNat arg] ++ x.drop 2               -- the two header bytes replaced: CMF = arg / 256, FLG = arg % 256
+  | _, 9 => []                                                                   -- EMPTY INPUT TO THE FILTER: the zero-byte prefix of the encoding
   | _, _ => x
 
 def eolBytes (e : Nat) : Bytes := match e with | 1 => [0x0A] | 2 => [0x0D, 0x0A] | 3 => [0x0D] | _ => []
@@ -582,6 +586,8 @@ def Recipe.zcase (r : Recipe) : Option (Nat × Nat × Nat × Bool) :=
 /-- what the decoder must return: the payload; with `z`s inserted at a group boundary of the innermost layer,
     the payload with four zero bytes per `z` at that place -/
 def Recipe.wanted (r : Recipe) : Bytes :=
+  -- corruption 9: a filter that takes the empty string as an encoding can only mean the empty string by it
+  if r.corrL != 0 && r.corrOp == 9 then [] else
   match r.zcase with
   | some (grp, 0, cnt, true) => r.payload.take (4 * grp) ++ List.replicate (4 * cnt) 0 ++ r.payload.drop (4 * grp)
   | _ => r.payload
@@ -653,8 +659,26 @@ def Recipe.inWindow (r : Recipe) (dists : List Nat) : Bool :=
       | none => l.window
     d ≤ w
 
+/-- EMPTY INPUT TO A FILTER (corruption 9: the output of layer `corrL` is the empty string, so the filters outside it
+    legitimately decode to no bytes at all and the filter of that layer is handed zero bytes).  The verdict is the
+    standard's: zero bytes are no zlib stream (RFC 1950: two header bytes, a block, four check bytes), no ASCIIHex text
+    (ISO 32000-1 7.4.2: the EOD marker `>` is required), no JPEG image - TransformError; an ASCII85 text without its EOD
+    `~>` is outside 7.4.4 (no bytes or an error), and no bytes then are the input of the next filter.  `none`: not such
+    a recipe.  A `D` (DCTDecode) layer has no spec-side encoder: it may only stand where it is handed no bytes. -/
+def Recipe.emptyInput (r : Recipe) : Option Expect :=
+  let dcts := (r.chain.filter (·.kind == 'D')).length
+  if r.corrL != 0 && r.corrOp == 9 then
+    let rest := r.chain.drop (r.corrL - 1)
+    if rest.isEmpty || rest.any (·.kind == 'U') then some .unsupported
+    else if dcts > 1 || (dcts == 1 && (rest.head?.map (·.kind)) != some 'D') then some .unsupported
+    else if rest.all (·.kind == 'A') then some .okOrTransform
+    else some .errTransform
+  else if dcts > 0 then some .unsupported
+  else none
+
 def Recipe.expect (r : Recipe) (parms : List Obj) (dists : List Nat := []) : Expect :=
   if !r.supported then .unsupported else
+  if r.emptyInput matches some .unsupported then .unsupported else
   let s := r.shape / 3
   let unknown := r.chain.any (·.kind == 'U')
   let single := r.chain.length == 1
@@ -668,6 +692,7 @@ def Recipe.expect (r : Recipe) (parms : List Obj) (dists : List Nat := []) : Exp
   else if r.corrL != 0 && !legalSwap then
     -- a corrupt layer is reached only if no unknown filter precedes it
     if (r.chain.take (r.corrL - 1)).any (·.kind == 'U') then .errGuard
+    else if let some e := r.emptyInput then e
     else match r.zcase with
       | some (_, 0, _, true) => .okPayload          -- `z` at a group boundary is legal: `Recipe.wanted`
       | some (_, 0, _, false) => .unsupported       -- (it alters the input of the layers below)
@@ -1046,6 +1071,34 @@ def gen (seed n : Nat) (tier : String) (emit0 : String → IO Unit) : IO Unit :=
       r := r1
       let l : Layer := ⟨'A', if variant % 4 < 2 then 0 else 11 + variant, 1 - variant % 2, 0, 0⟩
       emit (caseOf "mal" { shape := 3 + variant % 3, chain := [l], corrL := 1, corrOp := op, corrArg := variant, payload := p })
+  -- 3c. EMPTY INPUT TO A FILTER (corruption 9; `Recipe.emptyInput`): every filter - ASCIIHex, ASCII85, Flate under each
+  --     of the five encoders and under another legal header, Flate with a predictor, DCT - at every chain position: the
+  --     stream content itself empty (or only the end-of-line marker), or the filters outside it (none, each of the seven
+  --     layer kinds, two of them; thorough: all 49 pairs) legitimately decoding to the empty string (`>`, `~>`, the zlib
+  --     streams of no bytes), with and without further filters inside; every way of spelling /Filter for the chain
+  let emptied : List Layer := kinds ++ [⟨'F', 2 + 8 * 13, 5, 0, 0⟩, ⟨'P', 0, 3, 12 + 16 * 3, 15⟩, ⟨'D', 0, 0, 0, 0⟩]
+  let outers : List (List Layer) := [[]] ++ chains1 ++
+    (if thorough then chains2 else [[kinds[0]!, kinds[1]!], [kinds[1]!, kinds[0]!], [kinds[2]!, kinds[1]!], [kinds[1]!, kinds[6]!]])
+  let mut ei := seed % 7
+  for l in emptied do
+    for outer in outers do
+      for withInner in [false, true] do
+        ei := ei + 1
+        let (p, r1) := mkPayload r (ei % 6) ei
+        let (inner, r2) := randChain r1 (if withInner then 1 + ei % 2 else 0) false
+        r := r2
+        let ch := outer ++ [l] ++ inner
+        let pshape := l.kind == 'P' || inner.any (·.kind == 'P')
+        let s := if pshape then 2 else if ch.length == 1 then ei % 3 else 1 + ei % 2
+        emit (caseOf "mal" { shape := s * 3 + ei % 3, chain := ch, corrL := outer.length + 1, corrOp := 9,
+                             eol := if ei % 4 < 2 then 0 else ei % 4 + (ei / 4) % 2 - 1, payload := p })
+  --     the same as the zero-byte prefix in the truncation family (F.1.0), and ASCIIHex of no bytes without its EOD
+  for m in [0, 1, 2, 3, 4] do
+    for outer in [[], [kinds[0]!], [kinds[1]!, kinds[m]!]] do
+      emit (caseOf "mal" { shape := 3 + m % 3, chain := outer ++ [⟨'F', m, m + 1, 0, 0⟩], corrL := outer.length + 1,
+                           corrOp := 1, corrArg := 0, payload := [1, 2, 3] })
+  for outer in [[], [kinds[1]!], [kinds[2]!], [kinds[6]!, kinds[0]!]] do
+    emit (caseOf "mal" { shape := 3, chain := outer ++ [⟨'H', 0, 1, 0, 0⟩], corrL := outer.length + 1, corrOp := 2, payload := [] })
   --    corruptions of the zlib stream of a predictor layer
   for op in [1, 2, 3, 4, 5] do
     for variant in List.range 4 do
